@@ -86,14 +86,38 @@ def range_var(t):
     return None
 
 
+def enum_item(t):
+    """if t is the item of `for (i, x) in seq.iter().enumerate()` (unwrap(Enumerate::next(phi iter))) return seq else None"""
+    if isinstance(t, tuple) and t and t[0] == "unwrap" and isinstance(t[1], tuple) and t[1][0] == "call" \
+            and t[1][1].endswith("Enumerate<I> as std::iter::Iterator>::next"):
+        it = t[1][2][0]
+        if isinstance(it, tuple) and it[0] == "phi":
+            init = it[4]
+            if isinstance(init, tuple) and init and init[0] == "call" and init[1].endswith("Iterator::enumerate") and init[2]:
+                seq = init[2][0]
+                n = 0
+                while isinstance(seq, tuple) and seq and seq[0] == "call" and re.search(r"::(iter|into_iter|iter_mut|copied|cloned)$", seq[1]) and seq[2] and n < 4:
+                    seq = seq[2][0]
+                    n += 1
+                return seq
+    return None
+
+
 def norm_loopvars(t):
-    """replace range-loop items by ('i', lo, hi) for readable, comparable loop-body terms"""
-    from .symex import subst, subterms
+    """replace range-loop items by ('i', lo, hi), and the two components of an enumerate item by the same index and the indexed
+    element (`for (i, x) in seq.iter().enumerate()`: i -> ('i', 0, len(seq)), x -> seq[i]), so that the two spellings of a loop
+    over a sequence give the same loop-body terms"""
+    from .symex import subst, subterms, mk_const
     m = {}
     for s in subterms(t):
         rv = range_var(s)
         if rv is not None:
             m[s] = ("i", rv[0], rv[1])
+        seq = enum_item(s)
+        if seq is not None:
+            i = ("i", mk_const("usize", 0), ("len", seq))
+            m[("field", s, ("f", "0"))] = i
+            m[("field", s, ("f", "1"))] = ("idx", seq, i)
     return subst(t, m) if m else t
 
 
